@@ -639,7 +639,7 @@ pub fn threshold_histories(rep: &mut Report, shard: usize, shards: usize, san: b
 		let tail_keys = ["k0".to_string(), format!("k{}", n / 2), "zz".to_string()];
 		let mut tails: Vec<Vec<usize>> = vec![vec![]];
 		let mut layer: Vec<Vec<usize>> = vec![vec![]];
-		for _ in 0..(if cfg!(miri) { 1 } else if san { 2 } else { 3 }) {
+		for _ in 0..(if cfg!(miri) { 0 } else if san { 2 } else { 3 }) {
 			let mut next = Vec::new();
 			for t in &layer {
 				for k in 0..3 {
@@ -666,7 +666,7 @@ pub fn threshold_histories(rep: &mut Report, shard: usize, shards: usize, san: b
 	// (2) many duplicates of one key, other keys before, between and after them
 	let dups: &[usize] = if cfg!(miri) { &[4] } else if san { &[3, 64] } else { &[2, 3, 4, 31, 32, 33, 63, 64, 65, 66, 100, 127, 128, 129, 200] };
 	for &d in dups {
-		for layout in 0..6usize {
+		for layout in 0..(if cfg!(miri) { 2usize } else { 6 }) {
 			let mut prefix: Vec<Op> = Vec::new();
 			if layout % 2 == 1 {
 				prefix.push(Op::Push("a".into()));
@@ -742,7 +742,8 @@ pub fn run(cfg: &Config) -> i32 {
 
 	// random histories: few keys / many duplicates, and many keys / growth cycles
 	let ops_budget = cfg.budget(1_000_000, 40_000_000);
-	let shards = 64usize;
+	// every shard runs at least one history: fewer shards under the interpreter
+	let shards = if cfg!(miri) { 8usize } else { 64usize };
 	let seed = cfg.seed;
 	let san = cfg.san;
 	let rep = parallel(cfg.threads, shards, |i| {
